@@ -13,10 +13,17 @@
   the reader accepts is mapped to the documented trees of its values) and `json_text_refines` (the
   canonical rendering of a value, also with white space inserted, is such a text and denotes that
   value); the proofs are in Proofs/Lemmas/JsonText.lean and Proofs/Lemmas/JsonNum.lean.
+
+  The reader on ARBITRARY texts (Proofs/Lemmas/JsonSound.lean): `json_reader_fuel_adequate` (the fuel
+  `parseText` gives the reader is enough for every text), `json_reader_ignores_nothing` (an accepted
+  text is, character for character, a spelling `Json.SpellsStream` of the returned values: RFC 8259
+  with optional white space, nothing is skipped) and `json_reader_exact` (the accepted texts are
+  exactly these streams, split by maximal munch; a rejected text is none).
 -/
 import Proofs.Lemmas.JsonRefine
 import Proofs.Lemmas.JsonText
 import Proofs.Lemmas.JsonNum
+import Proofs.Lemmas.JsonSound
 
 namespace Xsel.C16
 open Xsel Xsel.Json
@@ -136,5 +143,87 @@ theorem json_text_refines_stream (vs : List JVal) (h : ∀ v ∈ vs, Json.wfJ v 
 example : Json.wfJ Json.sampleV = true := by decide +kernel
 example : (Json.tokensOfText "{\"a\":[1,\"x\\u000a\",null],\"a\":-2.5}".toList).bind Json.adapter =
     some (Json.eventsOf Json.sampleV) := by decide +kernel
+
+/-! ### the reader on arbitrary texts -/
+
+/-- **json_reader_fuel_adequate** — the reader is a fuel-taking recursive-descent reader
+    (`Json.pTop`, over `Json.pVal`/`pTail`/`pMember`/`pMTail`) and `parseText cs` runs it with the
+    fuel `cs.length + 1`.  That fuel is enough for EVERY text: whatever the reader reads with any
+    amount of fuel is what `parseText` answers, so `parseText cs = none` is a verdict about the
+    text and never an artefact of the fuel -/
+theorem json_reader_fuel_adequate (cs : Chars) (vs : List JVal) :
+    (∃ f, Json.pTop f cs = some vs) ↔ Json.parseText cs = some vs :=
+  Json.parseText_fuel_adequate cs vs
+
+/-- more fuel never changes an answer of the value reader -/
+theorem json_reader_fuel_monotone {f g : Nat} (hfg : f ≤ g) (cs : Chars) (x : JVal × Chars)
+    (h : Json.pVal f cs = some x) : Json.pVal g cs = some x :=
+  Json.pVal_mono hfg cs x h
+
+/-- a value that is read with some fuel is read with every fuel that is at least the number of
+    characters it spans -/
+theorem json_value_fuel_linear (f : Nat) (cs : Chars) (v : JVal) (r : Chars)
+    (h : Json.pVal f cs = some (v, r)) (g : Nat) (hg : cs.length ≤ r.length + g) :
+    Json.pVal g cs = some (v, r) :=
+  Json.pVal_adequate f cs v r h g hg
+
+/-- **json_reader_ignores_nothing** — an accepted text is a stream of JSON texts of the returned
+    values (`Json.SpellsStream`: white space, then each value spelled after RFC 8259 —
+    `Json.Spells`, `Json.SpellsStr`, `Json.SpellsNum` — and followed by optional white space):
+    every character of the text belongs to the spelling of a value or is white space where the
+    grammar allows it; no character is skipped and nothing is read that is not there -/
+theorem json_reader_ignores_nothing (cs : Chars) (vs : List JVal)
+    (h : Json.parseText cs = some vs) : Json.SpellsStream vs cs :=
+  Json.parseText_sound cs vs h
+
+/-- **json_reader_exact** — and conversely: the accepted texts are EXACTLY the streams of JSON
+    texts, split by maximal munch (`Json.Munch`: a top-level number that is directly followed by a
+    digit is the literal `0` or `-0`, so `12` is one number and `01` is two, as in Go's decoder) -/
+theorem json_reader_exact (cs : Chars) (vs : List JVal) :
+    Json.parseText cs = some vs ↔ Json.SpellsStreamExact vs cs :=
+  Json.parseText_exact cs vs
+
+/-- a text spells at most one value -/
+theorem json_spelling_unique {v w : JVal} {t : Chars} (h1 : Json.Spells v t) (h2 : Json.Spells w t) :
+    v = w :=
+  Json.Spells.unique h1 h2
+
+/-- a rejected text is rejected with every fuel and is not a stream of JSON texts -/
+theorem json_reader_rejects (cs : Chars) (h : Json.parseText cs = none) :
+    (∀ f, Json.pTop f cs = none) ∧ ∀ vs, ¬ Json.SpellsStreamExact vs cs :=
+  Json.parseText_none cs h
+
+/-- non-vacuity: the text `{"a":[1,2,{"b":null}],"c":"d"} 7` is accepted, its values have the tokens
+    `{ "a" [ 1 2 { "b" null } ] "c" "d" } 7`, the text spells them, and every sufficient fuel reads
+    them -/
+example : ∃ vs, Json.parseText "{\"a\":[1,2,{\"b\":null}],\"c\":\"d\"} 7".toList = some vs ∧
+    vs.flatMap Json.tokensOf =
+      [.lbrace, .str ['a'], .lbrack, .num (.fin 1), .num (.fin 2), .lbrace, .str ['b'], .null,
+       .rbrace, .rbrack, .str ['c'], .str ['d'], .rbrace, .num (.fin 7)] ∧
+    Json.SpellsStream vs "{\"a\":[1,2,{\"b\":null}],\"c\":\"d\"} 7".toList ∧
+    Json.SpellsStreamExact vs "{\"a\":[1,2,{\"b\":null}],\"c\":\"d\"} 7".toList ∧
+    ∀ g, 33 ≤ g → Json.pTop g "{\"a\":[1,2,{\"b\":null}],\"c\":\"d\"} 7".toList = some vs := by
+  have h : Json.tokensOfText "{\"a\":[1,2,{\"b\":null}],\"c\":\"d\"} 7".toList =
+      some [.lbrace, .str ['a'], .lbrack, .num (.fin 1), .num (.fin 2), .lbrace, .str ['b'], .null,
+       .rbrace, .rbrack, .str ['c'], .str ['d'], .rbrace, .num (.fin 7)] := by decide +kernel
+  simp only [Json.tokensOfText, Option.map_eq_some_iff] at h
+  obtain ⟨vs, hp, ht⟩ := h
+  refine ⟨vs, hp, ht, json_reader_ignores_nothing _ _ hp, (json_reader_exact _ _).1 hp, ?_⟩
+  intro g hg
+  exact Json.pTop_adequate _ _ _ hp g (by
+    have : "{\"a\":[1,2,{\"b\":null}],\"c\":\"d\"} 7".toList.length = 32 := by decide
+    omega)
+
+/-- non-vacuity of the rejection: `[1 2]` (no comma) and `[1,` (truncated) are not streams of JSON
+    texts, with whatever fuel -/
+example : (∀ f, Json.pTop f "[1 2]".toList = none) ∧
+    ∀ vs, ¬ Json.SpellsStreamExact vs "[1 2]".toList := by
+  refine json_reader_rejects _ ?_
+  have h : Json.tokensOfText "[1 2]".toList = none := by decide +kernel
+  simpa [Json.tokensOfText] using h
+
+/-- maximal munch: `12` is one number, `01` is two (a leading `0` ends the integer part) -/
+example : Json.tokensOfText "12".toList = some [.num (.fin 12)] := by decide +kernel
+example : Json.tokensOfText "01".toList = some [.num (.fin 0), .num (.fin 1)] := by decide +kernel
 
 end Xsel.C16
